@@ -202,6 +202,20 @@ CHECKS["C09"] = dict(
               "predicate on logged stack identities for every table key and modifier",
 )
 
+CHECKS["C10"] = dict(
+    text="MC_Heap models values as cells with copies as lazy views of their source (as helpers.deep_copy makes them) and "
+         "checks that no cell's denotation ever changes as long as no element writes in place (and shows the violation "
+         "when one does). Every element of the table is run on arguments built from known plain values (eager, lazy, "
+         "shared) and the caller's references are forced afterwards; programs <value> <copy-op> <1..3 elements> are run in "
+         "two phases with every reference existing after the copy retained (stack entries, register, global array, "
+         "variable); TLC compares each retained reference with the construction value (Trace_Heap).",
+    note="Trusted: the construction value is known without observing; function values are outside the quantifier; "
+         "argument tuples on which the element raises are inapplicable.",
+    ref="DESIGN.md section 6 C10",
+    technique="TLA+ spec (MC_Heap: cells, view copies, in-place vs copying writers) model-checked by TLC + TLC comparison "
+              "of retained references after every element / element sequence",
+)
+
 NOT_APPLICABLE = {}
 
 DEFAULT_NA = ("check under construction in this round; it will be claimed when its TLA+ module and "
